@@ -446,6 +446,10 @@ inline void Exec::cal_apply(int ki) {
     for (auto &cell : B.cells) for (size_t j = 0; j < cell.n; j++) cell[j] = gval();
     for (size_t q = 0; q < A.cells.size(); q++) for (size_t j = 0; j < A.cells[q].n; j++)
         A.cells[q][j] = (colsys || (ac > 0 && (int)q / ac == (int)q % ac)) ? mkc(1 + c.unit(), c.unit()) : mkc(0.1 * c.unit(), 0);
+    if (ab && ex == XP_OK && c.chance(1, 6)) {     // vnacal(3) EDOM: "The a matrix given to vnacal_apply() ... is singular"
+        for (auto &cell : A.cells) for (size_t j = 0; j < cell.n; j++) cell[j] = mkc(0, 0);
+        ex = XP_EITHER; why = "singular-a";
+    }
     Buf<double> fb(fv.size()); for (size_t j = 0; j < fv.size(); j++) fb[j] = fv[j];
     c.note("vnacal_apply%s(k%d, ci %d, nf=%d, %s%dx%d -> d%d)%s %s", ab ? "" : "_m", ki, ci, nf, ab ? "a/b " : "m ", br, bc, di, ex == XP_FAIL ? "  [invalid]" : "", why);
     vnadata_t *out = datas[di]->p;
@@ -463,7 +467,7 @@ inline void Exec::cal_names() {
     bool known = false; for (int t = 0; t < 8; t++) if (!strcasecmp(nm.c_str(), TNAME[t])) known = true;
     c.note("vnacal_name_to_type(%s)", nm.c_str());
     // "If the name doesn't match any type, the function returns -1" (errno not documented, no error function)
-    Call k = mk("vnacal_name_to_type", known ? XP_OK : XP_FAIL, 0, known ? "valid" : "unknown-name"); k.log = nullptr;
+    Call k = mk("vnacal_name_to_type", known ? XP_OK : XP_FAIL, 0, known ? "valid" : "unknown-name"); k.log = nullptr; k.check_errno = false;
     icall(k, [&] { return (int)vnacal_name_to_type(nm.c_str()); });
     int t = c.chance(1, 4) ? (c.boolean() ? -1 : 9 + (int)c.draw(3)) : (int)cs::LIBTYPE[c.draw(8)];
     (void)vnacal_type_to_name((vnacal_type_t)t);       // no failure value documented: only "no crash"
@@ -476,6 +480,7 @@ inline void Exec::op_cal() {
     if (w == 12) { cal_names(); return; }
     int ki = need_cal();
     if (ki < 0) return;
+    if ((w == 5 || w == 6 || w == 7 || w == 11) && live_cis(*cals[ki]).empty() && c.chance(1, 2)) quick_calibration(ki);
     switch (w) {
     case 0: case 3: cal_params(ki); break;
     case 2: cal_free(ki); break;
